@@ -1,2 +1,3 @@
 """One module per group of properties; importing this package populates campaign.REGISTRY."""
 from . import basic  # noqa: F401
+from . import rtc  # noqa: F401
